@@ -227,6 +227,12 @@ def do_call(drv, c):
         drv.__enter__()
         return True
     if api == "exit":
+        if c.get("raising") == "comm":             # a library call inside the block failed and its CommError left the block
+            from pycomm3.exceptions import CommError
+            try:
+                raise CommError("socket connection broken")
+            except CommError as ex:
+                return drv.__exit__(type(ex), ex, ex.__traceback__)
         if c.get("raising"):
             try:
                 raise ValueError("user code failed inside the with block")
